@@ -85,7 +85,7 @@ m = {
    "guard": "qcow2_rs_verif",
    "enable": "RUSTFLAGS='--cfg qcow2_rs_verif' — set for the harness crate by /verif/harness/.cargo/config.toml; /verif/check rebuilds /verif/harness (path dependency on /repo) on every run",
    "baseline_off_cmd": "cd /repo && cargo test --workspace --no-fail-fast --offline",
-   "source_commits": ["9d28f34", "ae69cc1", "3568a70"],
+   "source_commits": ["9d28f34", "ae69cc1", "3568a70", "0359e77"],
    "add_only": True,
  },
  "engines": [
